@@ -55,6 +55,7 @@ class Ctx:
         shutil.rmtree(self.work, ignore_errors=True)
         os.makedirs(self.work, exist_ok=True)
         os.makedirs(REPLAYS, exist_ok=True)
+        self._clean_replays = True
         self.violations = []      # dicts: key, what, replay (object)
         self.known_hits = []
         self.cov = {}             # coverage dict for the evidence file
@@ -185,6 +186,13 @@ class Ctx:
         self.violations.append({"key": key, "what": what, "replay": replay})
 
     def finish(self, level, coverage, assumptions=None):
+        # replay files of earlier runs of this check are stale now
+        import glob
+        for f in glob.glob(os.path.join(REPLAYS, self.pid + "-*.json")):
+            try:
+                os.remove(f)
+            except OSError:
+                pass
         known = load_known(self.pid)
         nviol = 0
         seen_known = set()
@@ -324,6 +332,13 @@ def main(checks):
         sys.exit(2)
     ctx = Ctx(a.pid, a.tier, seed)
     ctx.replay = a.replay
+    if a.replay:
+        from checks import replay as _replay
+        try:
+            sys.exit(_replay.run(ctx, a.replay))
+        except Infra as e:
+            log("INFRA-FAILURE %s: %s" % (a.pid, e))
+            sys.exit(2)
     try:
         rc = checks[a.pid](ctx)
     except Infra as e:
